@@ -77,16 +77,20 @@ def run(prop, case, exception_is_violation=False):
             rebuild_h_atoms(frag, keep_bonding=True)
         except Exception:
             pass
+    scribbled = MC.scribble_on_fresh_parse(case) if len(MC.describe_case(case)) % 3 == 0 else 0
     contracts.CONTEXT['explicit_h_possible'] = '[H' in MC.describe_case(case)
+    gaps = prop == 'C02' and case.get('ctor') == 'from_fragment_dicts' and case['kind'] in ('cut', 'virtual', 'coarse_cut') and len(MC.describe_case(case)) % 2 == 0
+    contracts.CONTEXT['fragment_keys_with_gaps'] = gaps
     try:
         res = MC.execute(case)
     finally:
         contracts.CONTEXT['explicit_h_possible'] = True
+        contracts.CONTEXT['fragment_keys_with_gaps'] = False
     viol = []
     for r in contracts.take(prop) + contracts.take('HARNESS'):
         viol.append(V(r['clause'], f"{MC.describe_case(case)} :: {r['msg']}"))
     contracts.clear()
-    out = {'violations': viol, 'counters': {'resolve_calls_observed': contracts.STATS['resolve_calls'] - before},
+    out = {'violations': viol, 'counters': {'resolve_calls_observed': contracts.STATS['resolve_calls'] - before, 'fragment_graphs_keyed_with_gaps': int(bool(gaps)), 'fragment_graphs_parsed_and_scribbled_on_before': scribbled},
            'sample': MC.describe_case(case)}
     if res['rejected']:
         out['rejected'] = {res['rejected']: 1}
